@@ -9,6 +9,8 @@ from pfhedge._utils.doc import _set_attr_and_docstring
 from pfhedge._utils.doc import _set_docstring
 from pfhedge._utils.str import _format_float
 from pfhedge.instruments import LookbackOption
+from pfhedge.nn.functional import bs_lookback_delta
+from pfhedge.nn.functional import bs_lookback_gamma
 from pfhedge.nn.functional import bs_lookback_price
 
 from ._base import BSModuleMixin
@@ -226,12 +228,11 @@ class BSLookbackOption(BSModuleMixin):
             time_to_maturity,
             volatility,
         )
-        return super().delta(
+        return bs_lookback_delta(
             log_moneyness=log_moneyness,
             max_log_moneyness=max_log_moneyness,
             time_to_maturity=time_to_maturity,
             volatility=volatility,
-            create_graph=create_graph,
             strike=self.strike,
         )
 
@@ -278,12 +279,12 @@ class BSLookbackOption(BSModuleMixin):
             time_to_maturity,
             volatility,
         )
-        return super().gamma(
-            strike=self.strike,
+        return bs_lookback_gamma(
             log_moneyness=log_moneyness,
             max_log_moneyness=max_log_moneyness,
             time_to_maturity=time_to_maturity,
             volatility=volatility,
+            strike=self.strike,
         )
 
     @torch.enable_grad()
